@@ -376,7 +376,8 @@ def check(ctx, R):
     R.run("C04.h", lambda R, c: c01.rule_f(R, c, "C04.h"), ctx)
     R.run("C04.i", rule_i, ctx)
     from . import preds
-    R.run("C04.p", lambda R, c: preds.rule(R, c, "C04.p", ["detect_conflict", "item_contains", "is_missing"]), ctx)
+    R.run("C04.p", lambda R, c: preds.rule(R, c, "C04.p", ["detect_conflict", "item_contains", "is_missing", "flags_check", "block_is_deleted"]), ctx)
+    R.run("C04.p", lambda R, c: preds.flag_table(R, c, "C04.p"), ctx)
     from . import shared as _sh
     R.run("C04.j", lambda R, c: _sh.unapplied_within_range(R, c, "C04.j"), ctx)
     return {}
